@@ -276,6 +276,17 @@ func NewFlavourBS(flav string, bs inmem.BackingStore) state.CoreState { //nolint
 
 // ErrClass maps an error to the small enum via the public predicates only.
 func ErrClass(err error) string {
+	// the classification must survive wrapping (a layer in between annotating the error with %w)
+	if err != nil {
+		if a, b := errClass1(err), errClass1(fmt.Errorf("annotated: %w", err)); a != b {
+			return "UNSTABLE-UNDER-WRAPPING(" + a + "/" + b + ")"
+		}
+	}
+
+	return errClass1(err)
+}
+
+func errClass1(err error) string {
 	switch {
 	case err == nil:
 		return "nil"
